@@ -145,6 +145,7 @@ if (jcol == BADPAN)
 	     * For each unmarked nbr krow of jj ...
 	     */
 	    col_marker[krow] = jj;
+	    SLU_MT_VEV(VE_DFS_PERMR, pnum, krow, &perm_r[krow]);
 	    kperm = perm_r[krow];
 	    
 	    if ( kperm == EMPTY ) {
@@ -183,6 +184,7 @@ if (jj == BADCOL)
 		    /* Otherwise, performs dfs starting from krep */
 		    parent[krep] = EMPTY;
 		    repfnz_col[krep] = kperm;
+		    SLU_MT_VEV(VE_DFS_VISIT, pnum, krep, &ispruned[krep]);
 		    if ( ispruned[krep] ) {
 			if ( SINGLETON( supno[krep] ) )
 			    xdfs = xlsub_end[krep];
@@ -218,6 +220,7 @@ if (jj == BADCOL)
 			    
 			    if ( chmark != jj ) { /* Not reached yet */
 				col_marker[kchild] = jj;
+				SLU_MT_VEV(VE_DFS_PERMR, pnum, kchild, &perm_r[kchild]);
 				chperm = perm_r[kchild];
 				
 				if ( chperm == EMPTY ) {
@@ -256,6 +259,7 @@ if (jj == BADCOL)
 					parent[chrep] = krep;
 					krep = chrep; /* Go deeper down G(L) */
 					repfnz_col[krep] = chperm;
+					SLU_MT_VEV(VE_DFS_VISIT, pnum, krep, &ispruned[krep]);
 					if ( ispruned[krep] ) {
 					    if ( SINGLETON( supno[krep] ) )
 						xdfs = xlsub_end[krep];
